@@ -544,7 +544,10 @@ func c10History(c *vk.Ctx, r *rand.Rand, hist int, hub *TargetHub, utgt *udpTarg
 	}
 	held = nil
 	time.Sleep(1200 * time.Millisecond) // UDP associations created by the probes expire (timeout 0.4 s)
-	fdReloaded := len(lab.FDs(srv.Pid))
+	// the descriptor table is read once it has stopped changing (three equal readings 200 ms apart, at most
+	// 6 s): on a loaded machine the last association or connection of the history may still be on its way
+	// out after the fixed pause - a descriptor that stays is counted, one that is being released is not
+	fdReloaded := stableFDs(srv.Pid)
 	dumpReloaded := srv.QuitDump()
 	fresh, err := StartServer(c.RunDir, cur, ServerOpts{UDPTimeout: 400 * time.Millisecond})
 	if err != nil {
@@ -554,7 +557,7 @@ func c10History(c *vk.Ctx, r *rand.Rand, hist int, hub *TargetHub, utgt *udpTarg
 		}
 		return true
 	}
-	fdFresh := len(lab.FDs(fresh.Pid))
+	fdFresh := stableFDs(fresh.Pid)
 	dumpFresh := fresh.QuitDump()
 	a, b := creationSites(dumpReloaded), creationSites(dumpFresh)
 	if sitesString(a) != sitesString(b) {
@@ -614,4 +617,19 @@ func init() {
 			c10Run(c)
 		},
 	})
+}
+
+// stableFDs reads a process's descriptor count once it has stopped changing (three equal readings 200 ms
+// apart, at most 6 s).
+func stableFDs(pid int) int {
+	n := len(lab.FDs(pid))
+	for i, same := 0, 0; i < 30 && same < 3; i++ {
+		time.Sleep(200 * time.Millisecond)
+		if m := len(lab.FDs(pid)); m == n {
+			same++
+		} else {
+			same, n = 0, m
+		}
+	}
+	return n
 }
